@@ -27,7 +27,7 @@ var solvers = []solverSpec{
 	}},
 }
 
-const maxScriptBytes = 600 * 1024
+const maxScriptBytes = 2 * 1024 * 1024
 
 func (o *Obligation) buildScript(decls []string) string {
 	var sb strings.Builder
